@@ -380,6 +380,8 @@ class Model:
             y if not c else x ->  x if c else y
             a <= x and x <= b ->  a <= x <= b        (x free of calls, the same text on both sides)
             v = E; return v   ->  return E           (v bound here only and read there only)
+            return A if c else B  ->  if c: return A;  return B
+            a_ = self.a; .. a_ ..  ->  .. self.a ..   (a_ bound at the top of the method only, self.a never stored in it)
         """
         import re as _re
 
@@ -480,11 +482,65 @@ class Model:
                     for h in getattr(st, "handlers", []) or []:
                         block(h.body)
             block(fn_node.body)
+        def split_returns(node):
+            """return A if c else B  ->  if c: return A   return B      (statement form: the rules walk paths)"""
+            for fld in ("body", "orelse", "finalbody"):
+                v = getattr(node, fld, None)
+                if isinstance(v, list) and v and isinstance(v[0], ast.stmt):
+                    out = []
+                    for st in v:
+                        if isinstance(st, ast.Return) and isinstance(st.value, ast.IfExp):
+                            e = st.value
+                            out.append(ast.copy_location(ast.If(test=e.test, body=[ast.copy_location(ast.Return(value=e.body), st)], orelse=[]), st))
+                            out.append(ast.copy_location(ast.Return(value=e.orelse), st))
+                        else:
+                            out.append(st)
+                    v[:] = out
+                    for st in v:
+                        if not isinstance(st, ast.ClassDef):
+                            split_returns(st)
+            for h in getattr(node, "handlers", []) or []:
+                split_returns(h)
+
+        def self_aliases(fn_node):
+            """a__ = self.a at the top level of a method, `a__` bound there only and `self.a` never stored in the method: every read
+            of `a__` is a read of `self.a` (the same object) — the alias is put back"""
+            if not (fn_node.args.args and fn_node.args.args[0].arg in ("self", "cls")):
+                return
+            me = fn_node.args.args[0].arg
+            stores = {}
+            attr_stores = set()
+            for x in ast.walk(fn_node):
+                if isinstance(x, ast.Name) and isinstance(x.ctx, (ast.Store, ast.Del)):
+                    stores[x.id] = stores.get(x.id, 0) + 1
+                if isinstance(x, ast.Attribute) and isinstance(x.ctx, (ast.Store, ast.Del)) and isinstance(x.value, ast.Name) and x.value.id == me:
+                    attr_stores.add(x.attr)
+                if isinstance(x, (ast.Global, ast.Nonlocal)):
+                    return
+            params = {a.arg for a in fn_node.args.posonlyargs + fn_node.args.args + fn_node.args.kwonlyargs}
+            for st in list(fn_node.body):
+                if isinstance(st, ast.Assign) and len(st.targets) == 1 and isinstance(st.targets[0], ast.Name) and isinstance(st.value, ast.Attribute) and \
+                        isinstance(st.value.value, ast.Name) and st.value.value.id == me and stores.get(st.targets[0].id) == 1 and \
+                        st.targets[0].id not in params and st.value.attr not in attr_stores:
+                    v, val = st.targets[0].id, st.value
+
+                    class A(ast.NodeTransformer):
+                        def visit_Name(self, n):
+                            if n.id == v and isinstance(n.ctx, ast.Load):
+                                return ast.copy_location(ast.Attribute(value=ast.copy_location(ast.Name(id=me, ctx=ast.Load()), n), attr=val.attr, ctx=ast.Load()), n)
+                            return n
+                    fn_node.body.remove(st)
+                    for i_, b in enumerate(fn_node.body):
+                        fn_node.body[i_] = A().visit(b)
+                    if not fn_node.body:
+                        fn_node.body.append(ast.copy_location(ast.Pass(), st))
         for m in self.mods.values():
             T().visit(m.tree)
             for n in ast.walk(m.tree):
                 if isinstance(n, (ast.FunctionDef, ast.AsyncFunctionDef)):
                     named_results(n)
+                    split_returns(n)
+                    self_aliases(n)
             ast.fix_missing_locations(m.tree)
 
     def _desugar_format(self) -> None:
